@@ -82,7 +82,7 @@ def register_yield():
         # at compile time; the harness always passes a column.
 
 
-def run_threads(conns, queries, params, schedule):
+def run_threads(conns, queries, params, schedule, start_yield=False):
     """run query k on conns[k] in thread k following `schedule`; returns list of canonical results"""
     tags = [chr(ord('A') + k) for k in range(len(queries))]
     sched = Scheduler([tags[t] for t in schedule], len(queries))
@@ -92,6 +92,9 @@ def run_threads(conns, queries, params, schedule):
     def work(k):
         _LOCAL.tag = tags[k]
         try:
+            if start_yield:
+                # a scheduling point before the statement is parsed and compiled: the schedule also decides who compiles first
+                sched.yield_point(tags[k])
             cur = conns[k].execute(queries[k], params[k])
             results[k] = proto.show_result(cur.description, cur.fetchall(), proto.Content())
         except Exception as exc:  # noqa: BLE001
@@ -177,7 +180,7 @@ def intruder_layer(ctx):
             return
 
 
-QUERIES = [
+QUERY_TEMPLATES = [
     ("SELECT balance, vp_yield('x', lineno), balance FROM #postings", None),
     ("SELECT vp_yield('x', lineno), balance FROM #postings WHERE account ~ 'Assets'", None),
     ("SELECT account, sum(position), count(vp_yield('x', lineno)) FROM #postings GROUP BY account ORDER BY account", None),
@@ -191,8 +194,9 @@ QUERIES = [
     ("SELECT currency, sum(number) AS total, vp_yield('x', count(number)) AS n FROM #postings WHERE number > 0 GROUP BY currency "
      "HAVING vp_yield('x', count(*)) > 0 ORDER BY currency", None),
     # statements with FROM qualifiers (the table is summarised per statement) next to unqualified ones
-    ("SELECT vp_yield('x', lineno), account, position FROM CLOSE ON 2020-03-01", None),
-    ("SELECT account, vp_yield('x', count(*)) AS n FROM OPEN ON 2020-01-15 CLOSE ON 2020-08-01 CLEAR GROUP BY account ORDER BY account", None),
+    # ({early}, {mid}, {late}: dates inside the ledger at hand, so that the qualifiers cut something off)
+    ("SELECT vp_yield('x', lineno), account, position FROM CLOSE ON {mid}", None),
+    ("SELECT account, vp_yield('x', count(*)) AS n FROM OPEN ON {early} CLOSE ON {late} CLEAR GROUP BY account ORDER BY account", None),
     # the accounts table and the account look-up functions, also for names that were never opened
     ("SELECT account, vp_yield('x', length(account)), open FROM #accounts", None),
     ("SELECT DISTINCT parent(account), open_date(parent(account)), vp_yield('x', lineno) * 0 FROM #postings", None),
@@ -218,6 +222,7 @@ QUERIES = [
     ("BALANCES FROM year >= vp_yield('c', 1900) WHERE account ~ 'Expenses'", None),
     ("BALANCES FROM year >= vp_yield('c', 1901) WHERE account ~ 'Assets'", None),
 ]
+QUERIES = list(QUERY_TEMPLATES)
 OUTPUT_PHASE = (8, 9)
 
 
@@ -266,6 +271,12 @@ def run(ctx):
             other = ledgers.connect(entries, errors, options)               # the same ledger on another connection
         else:
             other = ledgers.connect(*ledgers.gen_ledger(rng, ntxn=rng.range(3, 6))[1:])    # a different ledger
+        tdates = sorted({e.date for e in entries if hasattr(e, 'postings')})
+        marks = {'early': tdates[len(tdates) // 4].isoformat(), 'mid': tdates[len(tdates) // 2].isoformat(),
+                 'late': tdates[(3 * len(tdates)) // 4].isoformat()} if tdates else {'early': '2020-01-15', 'mid': '2020-03-01', 'late': '2020-08-01'}
+        global QUERIES
+        QUERIES = [(q.replace('{early}', marks['early']).replace('{mid}', marks['mid']).replace('{late}', marks['late']), p)
+                   for q, p in QUERY_TEMPLATES]
         before = audit_fingerprint(shared)
         entries_before = ledgers.entries_snapshot(entries)
         fixed = [(0, 0), (0, 3), (8, 8), (12, 13), (14, 15), (15, 16), (19, 19), (20, 21), (17, 18), (24, 25), (22, 23), (26, 27), (10, 1), (9, 9), (3, 3), (8, 9), (0, 1), (10, 2),
@@ -289,8 +300,28 @@ def run(ctx):
                 # plus seeded longer schedules (the quick tier spends its budget on covering every sensitive pair)
                 for _ in range((1 if (qa, qb) not in fixed else 0) if not ctx.thorough() else 6):
                     scheds.append(tuple(rng.below(2) for _ in range(rng.range(5, 14))))
-                for sched in scheds:
-                    got = run_threads(conns, queries, params, sched)
+                # (schedule, with a scheduling point at the start of each statement): the second statement runs to its end
+                # before the first one is even compiled; the second statement compiles first, then strict alternation
+                runs = [(sc, False) for sc in scheds] + [(tuple([1] * 200 + [0] * 200), True), (tuple([1, 0] * 40), True)]
+                for sched, sy in runs:
+                    if sy and mode == 'shared-connection':
+                        # on a connection nothing has run on yet (what an earlier statement left behind would hide the
+                        # order dependence), against the serial order on another such connection
+                        fresh = ledgers.connect(entries, errors, options)
+                        ref = ledgers.connect(entries, errors, options)
+                        want_here = serial([ref, ref], queries, params)
+                        got = run_threads([fresh, fresh], queries, params, sched, start_yield=True)
+                        if got is not None and got != want_here:
+                            ctx.record_violation('interleaving-changes-result',
+                                                 '%s (fresh), schedule with the second statement first, queries %r: thread results %r, serial %r' % (
+                                                     mode, queries, [g[:120] for g in got], [w[:120] for w in want_here]),
+                                                 payload={'ledger': text, 'queries': queries, 'params': params, 'schedule': sched[:8], 'mode': mode})
+                            break
+                        ctx.evaluations += 1
+                        ctx.nontrivial_hashes.add(hash((qa, qb, mode, 'fresh', sched[:4], lk)))
+                        ctx.count(mode)
+                        continue
+                    got = run_threads(conns, queries, params, sched, start_yield=sy)
                     ctx.evaluations += 1
                     ctx.nontrivial_hashes.add(hash((qa, qb, mode, sched, lk)))
                     ctx.count(mode)
